@@ -57,6 +57,8 @@ type PathResult struct {
 	SolverS     float64        `json:"solver_s"`
 	WallS       float64        `json:"wall_s"`
 	SymDecs     int            `json:"sym_decisions"`
+	SymInputs   int            `json:"sym_inputs"`
+	SymAsserts  int            `json:"sym_asserts"`
 	Sample      []InputVal     `json:"sample,omitempty"`
 	Funcs       []string       `json:"funcs,omitempty"`
 	Stubs       []string       `json:"stubs,omitempty"`
@@ -489,6 +491,7 @@ func (e *Explorer) RunPath(fn *ssa.Function, harness string, prefix []int64) (re
 		e.solver = nil
 	}
 	res.Decisions = e.decs
+	res.SymInputs = len(e.vars)
 	res.NewWork = e.newWork
 	res.Instrs = InstrCount - e.startInstrs
 	res.Queries = Stats.Queries - s0.Queries
